@@ -20,6 +20,7 @@ TEXT = {
  "C11": ("Memo family: memoized() at every subset of nodes of bounded grammars, shared memoized values used several times (let/var), left-recursive templates cut by memoization; TLC checks the machine's memo table protocol (key, in-progress marker, stored error) against the memo-erased reference and the step bound for left recursion; in the crate the memoized grammar is also compared against its memo-free erasure.", "3,4,5,7"),
  "C12": ("Recursive templates (right recursion, nested delimiters, mutual recursion, token trees, two self references) with environments; TLC checks the machine against the reference, whose rec/ref denotation is the unrolling; in the crate every recursive grammar is also compared against its k-fold syntactic unrolling.", "3,4,7"),
  "C13": ("Histories: a case is a grammar plus a sequence of inputs parsed one after the other through ONE parser value; the machine's ANextParse action creates the fresh per-parse state Parser::parse creates (cursor, pending and secondary errors, memo table, caller-supplied state) and TLC checks every parse of every enumerated history against the reference (each result depends on its own input only); the crate runs each history through the original value, a clone, a reference, Box, Rc, Arc, a second boxed() and Either (handles rotated over the parses), every parse's result must equal the machine's, must not depend on the handle, and must equal a fresh parser's result on that input; OS threads sharing one parser are exercised by the harness only (no schedule control).", "3,4,7,8"),
+ "C14": ("Text family: every parser of chumsky::text (int, digits, ascii/unicode ident and keyword, whitespace, inline_whitespace, newline, padded) is transcribed into the grammar src/text.rs builds it from (try_map over character classes, repetition, or, to_slice, the custom newline parser, skip_while for padded) and run by the machine; TLC checks at every return of a text parser that it matched exactly the prefix prescribed by an independent, declarative definition of its documented language (TextRefines / TextMatch) with the matched slice as output, for all strings up to the bound over an alphabet of digits, letters, underscore, all whitespace and line-terminator classes, a multi-byte letter and punctuation, radix 2/8/10/16/36; the real text parsers (not the transcription) are then run on the same cases on &str and &[u8] and compared with the machine, plus random longer strings validated by TLC. regex() is outside the specification (section 8).", "3,4,7,8"),
  "C15": ("Context family: with_ctx / map_ctx / then_with_ctx / ignore_with_ctx providers at arbitrary nodes, configurable just (owned and by reference) and repeated().configure(exactly/at_least/at_most); TLC checks that every context read equals the reference's environment-passing value and that configured parsers match like statically configured ones; outputs embedding the observed contexts are compared with the crate.", "3,4,7"),
  "C16": ("Token-tree family: inputs are balanced bracket sequences read as token trees (a group is one token holding an inner input), supplied as nested slices and through Input::map with global gapped spans; grammars put a.nested_in(b) at arbitrary nodes, b being a group selector alone or inside then/or; the machine models NestedIn::go and InputRef::with_input (fresh error state and memo table for the inner parse, inner parser followed by end(), inner secondary errors and pending error re-homed at the outer cursor, outer cursor advanced by b only) and TLC checks it against the reference (inner parser must match exactly the tokens of that group, outer position advances by what b consumed, emissions and failures surface); outputs and full error lists are compared with the crate.", "3,4,7"),
  "C17": ("Label family: labelled / as_context / map_err(id|retag) at every subset of nodes plus templates with a pending error left behind by a successful decorated parser; TLC checks the machine (label.rs, MapErrWithState) against the erasure reference; in the crate the decorated grammar is compared with its undecorated erasure on acceptance, outputs, error count and spans, and the full Rich errors are compared with the machine.", "3,4,7"),
